@@ -3,6 +3,7 @@
 package gtree
 
 import (
+	"context"
 	"fmt"
 	"os"
 	"path/filepath"
@@ -746,6 +747,32 @@ func optStr(o Option) string { return "" }
 //@   opaque
 func optStrs(o Option) []string { return nil }
 
+// optCtx: the context a WithMassive option was given (nil: none); specBg: context.Background()
+//@ spec gtree.optCtx
+//@   opaque
+func optCtx(o Option) context.Context { return nil }
+
+//@ spec gtree.specBg
+//@   opaque
+func specBg() context.Context { return context.Background() }
+
+// specLastCtx: the context the last WithMassive option among the first i puts into the configuration (nil if none)
+//@ spec gtree.specLastCtx
+//@   fuel 7
+//@   decreases i
+func specLastCtx(opts []Option, i int) context.Context {
+	if i <= 0 || i > len(opts) {
+		return nil
+	}
+	if opts[i-1] != nil && optKind(opts[i-1]) == optKMassive {
+		if optCtx(opts[i-1]) == nil {
+			return specBg()
+		}
+		return optCtx(opts[i-1])
+	}
+	return specLastCtx(opts, i-1)
+}
+
 // specHasOpt: one of the first i options is a (non-nil) option of the given kind
 //@ spec gtree.specHasOpt
 //@   fuel 7
@@ -842,6 +869,18 @@ func lemmaLastOptStrsPrefix(opts []Option, o Option, kind int, i int, def []stri
 	}
 }
 
+//@ lemma gtree.lemmaLastCtxPrefix
+//@   nowf
+//@   requires rng: 0 <= i && i <= len(opts)
+//@   ensures eq: specLastCtx(push(opts, o), i) == specLastCtx(opts, i)
+//@   trigger specLastCtx(push(opts, o), i)
+//@   decreases i
+func lemmaLastCtxPrefix(opts []Option, o Option, i int) {
+	if i > 0 {
+		lemmaLastCtxPrefix(opts, o, i-1)
+	}
+}
+
 //@ lemma gtree.lemmaLastEncodePrefix
 //@   nowf
 //@   requires rng: 0 <= i && i <= len(opts)
@@ -864,6 +903,7 @@ func lemmaLastEncodePrefix(opts []Option, o Option, i int) {
 //@   ensures ext [C16,C06]: (optKind(self) == optKExt ==> c.fileExtensions == optStrs(self)) && (optKind(self) != optKExt ==> c.fileExtensions == old(c.fileExtensions))
 //@   ensures dry [C16,C09]: (optKind(self) == optKDry ==> c.dryrun) && (optKind(self) != optKDry ==> c.dryrun == old(c.dryrun))
 //@   ensures massive [C16]: (optKind(self) == optKMassive ==> c.massive) && (optKind(self) != optKMassive ==> c.massive == old(c.massive))
+//@   ensures ctx [C16]: (optKind(self) == optKMassive ==> c.ctx == (optCtx(self) == nil ? specBg() : optCtx(self))) && (optKind(self) != optKMassive ==> c.ctx == old(c.ctx))
 //@   ensures encode [C16,C04]: (optKind(self) == optKJSON ==> c.encode == encodeJSON) && (optKind(self) == optKYAML ==> c.encode == encodeYAML) && (optKind(self) == optKTOML ==> c.encode == encodeTOML) && (optKind(self) != optKJSON && optKind(self) != optKYAML && optKind(self) != optKTOML ==> c.encode == old(c.encode))
 //@ closure gtree.WithBranchFormatIntermedialNode#1
 //@   implements optionFn
@@ -875,7 +915,7 @@ func lemmaLastEncodePrefix(opts []Option, o Option, i int) {
 //@   ensures set [C01]: c.lastNodeFormat.directly == directly && c.lastNodeFormat.indirectly == indirectly && c.intermedialNodeFormat.directly == old(c.intermedialNodeFormat.directly) && c.intermedialNodeFormat.indirectly == old(c.intermedialNodeFormat.indirectly)
 //@ closure gtree.WithMassive#1
 //@   implements optionFn
-//@   defines optKind(self) == optKMassive
+//@   defines optKind(self) == optKMassive && optCtx(self) == ctx
 //@   ensures set [C12]: c.massive && c.ctx != nil
 //@ closure gtree.WithEncodeJSON#1
 //@   implements optionFn
@@ -919,7 +959,7 @@ func lemmaLastEncodePrefix(opts []Option, o Option, i int) {
 //@ func gtree.WithDryRun
 //@   ensures opt [C16]: result != nil && optKind(result) == optKDry
 //@ func gtree.WithMassive
-//@   ensures opt [C16]: result != nil && optKind(result) == optKMassive
+//@   ensures opt [C16]: result != nil && optKind(result) == optKMassive && optCtx(result) == ctx
 //@ func gtree.WithEncodeJSON
 //@   ensures opt [C16]: result != nil && optKind(result) == optKJSON
 //@ func gtree.WithEncodeYAML
@@ -934,10 +974,10 @@ func lemmaLastEncodePrefix(opts []Option, o Option, i int) {
 //@   ghostset lastConfig := result
 //@   ensures cfg [C12]: fresh(result) && (result.massive ==> result.ctx != nil)
 //@   ensures defaults [C01,C06]: len(options) == 0 ==> !result.massive && result.encode == encodeDefault && !result.dryrun && result.targetDir == "." && !result.strictVerify && !result.noUseIterOfSimpleOutput && len(result.fileExtensions) == 0
-//@   ensures wired [C16]: result.strictVerify == specHasOpt(options, optKStrict, len(options)) && result.dryrun == specHasOpt(options, optKDry, len(options)) && result.massive == specHasOpt(options, optKMassive, len(options)) && result.targetDir == specLastOptStr(options, optKTarget, len(options), ".") && result.fileExtensions == specLastOptStrs(options, optKExt, len(options), nil) && result.encode == specLastEncode(options, len(options))
+//@   ensures wired [C16]: result.strictVerify == specHasOpt(options, optKStrict, len(options)) && result.dryrun == specHasOpt(options, optKDry, len(options)) && result.massive == specHasOpt(options, optKMassive, len(options)) && result.targetDir == specLastOptStr(options, optKTarget, len(options), ".") && result.fileExtensions == specLastOptStrs(options, optKExt, len(options), nil) && result.encode == specLastEncode(options, len(options)) && (result.massive ==> result.ctx == specLastCtx(options, len(options)))
 //@ loop gtree.newConfig#1
 //@   invariant ok: configOK(c) && fresh(c)
-//@   invariant wired: c.strictVerify == specHasOpt(options, optKStrict, $i) && c.dryrun == specHasOpt(options, optKDry, $i) && c.massive == specHasOpt(options, optKMassive, $i) && c.targetDir == specLastOptStr(options, optKTarget, $i, ".") && c.fileExtensions == specLastOptStrs(options, optKExt, $i, nil) && c.encode == specLastEncode(options, $i)
+//@   invariant wired: c.strictVerify == specHasOpt(options, optKStrict, $i) && c.dryrun == specHasOpt(options, optKDry, $i) && c.massive == specHasOpt(options, optKMassive, $i) && c.targetDir == specLastOptStr(options, optKTarget, $i, ".") && c.fileExtensions == specLastOptStrs(options, optKExt, $i, nil) && c.encode == specLastEncode(options, $i) && (c.massive ==> c.ctx == specLastCtx(options, $i))
 
 //@ func gtree.initializeTree
 //@   requires nn: cfg != nil && (cfg.massive ==> cfg.ctx != nil)
@@ -948,7 +988,7 @@ func lemmaLastEncodePrefix(opts []Option, o Option, i int) {
 // The massive (pipeline) implementations are not under contract (C10, C11 are not applicable to this technique).
 //@ func gtree.treePipeline.outputProgrammably
 //@   requires ok: pipelineTreeOK(t, cfg) && root != nil && root.hierarchy == 1
-//@   modifies Node.brnch.value, Node.brnch.path, out, wfail, defaultGrowSpreaderSimple.w, defaultSpreaderSimple.w, counter.n, encTrace, encoders, spText, errSent, splSent, ctxDoneSeen, errRecv
+//@   modifies Node.brnch.value, Node.brnch.path, out, wfail, defaultGrowSpreaderSimple.w, defaultSpreaderSimple.w, counter.n, encTrace, encoders, spText, errSent, ctxCancelled, splSent, ctxDoneSeen, errRecv
 //@   ensures reported [C14]: result == nil ==> errRecv == old(errRecv)
 //@   ensures dryfs [C09]: fsOps == old(fsOps) && fsFailed == old(fsFailed)
 //@   carries rootStream: rootChan
@@ -956,7 +996,7 @@ func lemmaLastEncodePrefix(opts []Option, o Option, i int) {
 //@   requires nn: root != nil && root.hierarchy == 1
 //@ func gtree.treePipeline.walkProgrammably
 //@   requires ok: pipelineTreeOK(t, cfg) && root != nil && root.hierarchy == 1
-//@   modifies Node.brnch.value, Node.brnch.path, cbTrace, cbFailed, cbLastErr, cbAfterFail, errSent, splSent, ctxDoneSeen, errRecv
+//@   modifies Node.brnch.value, Node.brnch.path, cbTrace, cbFailed, cbLastErr, cbAfterFail, errSent, ctxCancelled, splSent, ctxDoneSeen, errRecv
 //@   ensures reported [C14]: result == nil ==> errRecv == old(errRecv)
 //@   param callback follows walkCallback
 //@   carries rootStream: rootChan
@@ -964,7 +1004,7 @@ func lemmaLastEncodePrefix(opts []Option, o Option, i int) {
 //@   requires nn: root != nil && root.hierarchy == 1
 
 //@ contract fromRootOutput
-//@   modifies Node.brnch.value, Node.brnch.path, out, wfail, defaultGrowSpreaderSimple.w, defaultSpreaderSimple.w, counter.n, encTrace, encoders, lastConfig, spText, errSent, splSent, ctxDoneSeen, errRecv
+//@   modifies Node.brnch.value, Node.brnch.path, out, wfail, defaultGrowSpreaderSimple.w, defaultSpreaderSimple.w, counter.n, encTrace, encoders, lastConfig, spText, errSent, ctxCancelled, splSent, ctxDoneSeen, errRecv
 //@   ghostset lastConfig := cfg
 //@   ensures nilnode [C03]: root == nil ==> result == ErrNilNode && out == old(out) && wfail == old(wfail)
 //@   ensures notroot [C03]: root != nil && root.hierarchy != 1 ==> result == ErrNotRoot && out == old(out) && wfail == old(wfail)
@@ -974,7 +1014,7 @@ func lemmaLastEncodePrefix(opts []Option, o Option, i int) {
 //@ contract fromRootWalk
 //@   param callback follows walkCallback
 //@   requires live: !cbFailed
-//@   modifies Node.brnch.value, Node.brnch.path, cbTrace, cbFailed, cbLastErr, cbAfterFail, counter.n, lastConfig, errSent, splSent, ctxDoneSeen, errRecv
+//@   modifies Node.brnch.value, Node.brnch.path, cbTrace, cbFailed, cbLastErr, cbAfterFail, counter.n, lastConfig, errSent, ctxCancelled, splSent, ctxDoneSeen, errRecv
 //@   ghostset lastConfig := cfg
 //@   ensures nilnode [C03]: root == nil ==> result == ErrNilNode && cbTrace == old(cbTrace)
 //@   ensures notroot [C03]: root != nil && root.hierarchy != 1 ==> result == ErrNotRoot && cbTrace == old(cbTrace)
@@ -1106,27 +1146,30 @@ func lemmaRawAllIsRenderAll(last, mid branchFormat, roots []*Node, i int) {
 //@ ghost var libWriter any
 //@ ghost var libFailed bool
 //@ ghost var libCalls int
+// lastCtxLive: the context the last library call ran under had not been cancelled when the call was made (massive mode)
+//@ ghost var lastCtxLive bool
 
 // ---------------------------------------------------------------------------------------------
 // tree_handler.go: From-Markdown entry points (and their deprecated aliases: same shared contracts)
 
 //@ func gtree.treePipeline.output
 //@   requires ok: pipelineTreeOK(t, cfg)
-//@   modifies Node.children, Node.parent, Node.brnch.value, Node.brnch.path, list.List.view, list.Element.backOf, counter.n, bufio.Scanner.pos, bufio.Scanner.failed, markdown.Parser.isSharpRoot, markdown.Parser.spaces, markdown.Parser.sep, out, wfail, defaultSpreaderSimple.w, encTrace, encoders, lastForest, lnNodes, rsRoots, rsFailed, rsStopped, rsErr, gsRoots, gsFailed, gsStopped, gsErr, spRoots, spText, esFailed, errSent, splSent, ctxDoneSeen, errRecv
+//@   modifies Node.children, Node.parent, Node.brnch.value, Node.brnch.path, list.List.view, list.Element.backOf, counter.n, bufio.Scanner.pos, bufio.Scanner.failed, markdown.Parser.isSharpRoot, markdown.Parser.spaces, markdown.Parser.sep, out, wfail, defaultSpreaderSimple.w, encTrace, encoders, lastForest, lnNodes, rsRoots, rsFailed, rsStopped, rsErr, gsRoots, gsFailed, gsStopped, gsErr, spRoots, spText, esFailed, errSent, ctxCancelled, splSent, ctxDoneSeen, errRecv
 //@   ensures reported [C14]: result == nil ==> errRecv == old(errRecv)
 //@   ensures dryfs [C09]: fsOps == old(fsOps) && fsFailed == old(fsFailed)
 //@ func gtree.treePipeline.walk
 //@   requires ok: pipelineTreeOK(t, cfg)
-//@   modifies Node.children, Node.parent, Node.brnch.value, Node.brnch.path, list.List.view, list.Element.backOf, counter.n, bufio.Scanner.pos, bufio.Scanner.failed, markdown.Parser.isSharpRoot, markdown.Parser.spaces, markdown.Parser.sep, cbTrace, cbFailed, cbLastErr, cbAfterFail, lastForest, lnNodes, errSent, splSent, ctxDoneSeen, errRecv
+//@   modifies Node.children, Node.parent, Node.brnch.value, Node.brnch.path, list.List.view, list.Element.backOf, counter.n, bufio.Scanner.pos, bufio.Scanner.failed, markdown.Parser.isSharpRoot, markdown.Parser.spaces, markdown.Parser.sep, cbTrace, cbFailed, cbLastErr, cbAfterFail, lastForest, lnNodes, errSent, ctxCancelled, splSent, ctxDoneSeen, errRecv
 //@   ensures reported [C14]: result == nil ==> errRecv == old(errRecv)
 //@   param callback follows walkCallback
 
 //@ contract fromMarkdownOutput
-//@   modifies Node.children, Node.parent, Node.brnch.value, Node.brnch.path, list.List.view, list.Element.backOf, counter.n, bufio.Scanner.pos, bufio.Scanner.failed, markdown.Parser.isSharpRoot, markdown.Parser.spaces, markdown.Parser.sep, out, wfail, defaultSpreaderSimple.w, encTrace, encoders, libWriter, libFailed, libCalls, lastConfig, lastForest, lnNodes, rsRoots, rsFailed, rsStopped, rsErr, gsRoots, gsFailed, gsStopped, gsErr, spRoots, spText, esFailed, errSent, splSent, ctxDoneSeen, errRecv
+//@   modifies Node.children, Node.parent, Node.brnch.value, Node.brnch.path, list.List.view, list.Element.backOf, counter.n, bufio.Scanner.pos, bufio.Scanner.failed, markdown.Parser.isSharpRoot, markdown.Parser.spaces, markdown.Parser.sep, out, wfail, defaultSpreaderSimple.w, encTrace, encoders, libWriter, libFailed, libCalls, lastCtxLive, lastConfig, lastForest, lnNodes, rsRoots, rsFailed, rsStopped, rsErr, gsRoots, gsFailed, gsStopped, gsErr, spRoots, spText, esFailed, errSent, ctxCancelled, splSent, ctxDoneSeen, errRecv
 //@   ghostset lastConfig := cfg
 //@   ghostset libWriter := w
 //@   ghostset libFailed := old(libFailed) || result != nil
 //@   ghostset libCalls := old(libCalls) + 1
+//@   ghostset lastCtxLive := old(!specHasOpt(options, optKMassive, len(options)) || specLastCtx(options, len(options)) == specBg() || !ctxCancelled[specLastCtx(options, len(options))])
 //@   ensures render [C01,C03,C12,C14,C17]: fresh(lastConfig) && (!lastConfig.massive && lastConfig.encode == encodeDefault && !lastConfig.dryrun && result == nil ==> (old(wfail) || !wfail) && (lastConfig.noUseIterOfSimpleOutput ==> (allRoots(lastForest) && out[w] == old(out[w]) ++ specRenderAll(lastConfig.lastNodeFormat, lastConfig.intermedialNodeFormat, lastForest, len(lastForest)))) && (!lastConfig.noUseIterOfSimpleOutput ==> out[w] == old(out[w]) ++ spText && spRoots == rsRoots && !rsFailed))
 //@   ensures dryfs [C09]: fsOps == old(fsOps) && fsFailed == old(fsFailed)
 //@   ensures wired [C16]: lastConfig.strictVerify == specHasOpt(options, optKStrict, len(options)) && lastConfig.dryrun == specHasOpt(options, optKDry, len(options)) && lastConfig.massive == specHasOpt(options, optKMassive, len(options)) && lastConfig.targetDir == specLastOptStr(options, optKTarget, len(options), ".") && lastConfig.fileExtensions == specLastOptStrs(options, optKExt, len(options), nil) && lastConfig.encode == specLastEncode(options, len(options))
@@ -1135,7 +1178,7 @@ func lemmaRawAllIsRenderAll(last, mid branchFormat, roots []*Node, i int) {
 //@ contract fromMarkdownWalk
 //@   param callback follows walkCallback
 //@   requires live: !cbFailed
-//@   modifies Node.children, Node.parent, Node.brnch.value, Node.brnch.path, list.List.view, list.Element.backOf, counter.n, bufio.Scanner.pos, bufio.Scanner.failed, markdown.Parser.isSharpRoot, markdown.Parser.spaces, markdown.Parser.sep, cbTrace, cbFailed, cbLastErr, cbAfterFail, lastConfig, lastForest, lnNodes, errSent, splSent, ctxDoneSeen, errRecv
+//@   modifies Node.children, Node.parent, Node.brnch.value, Node.brnch.path, list.List.view, list.Element.backOf, counter.n, bufio.Scanner.pos, bufio.Scanner.failed, markdown.Parser.isSharpRoot, markdown.Parser.spaces, markdown.Parser.sep, cbTrace, cbFailed, cbLastErr, cbAfterFail, lastConfig, lastForest, lnNodes, errSent, ctxCancelled, splSent, ctxDoneSeen, errRecv
 //@   ghostset lastConfig := cfg
 //@   ensures walk [C05,C03,C12]: fresh(lastConfig) && (!lastConfig.massive ==> cbAfterFail == old(cbAfterFail) && (result == nil ==> !cbFailed && (allRoots(lastForest) && cbTrace == old(cbTrace) ++ specPreorderAll(lastForest, len(lastForest)))) && (cbFailed ==> result == cbLastErr && result != nil))
 //@ applies fromMarkdownWalk to gtree.WalkFromMarkdown, gtree.Walk
@@ -1448,11 +1491,11 @@ func fsExistsAt(p string) bool { _, err := os.Stat(p); return !os.IsNotExist(err
 
 //@ func gtree.treePipeline.mkdir
 //@   requires ok: pipelineTreeOK(t, cfg)
-//@   modifies Node.children, Node.parent, Node.brnch.value, Node.brnch.path, list.List.view, list.Element.backOf, counter.n, bufio.Scanner.pos, bufio.Scanner.failed, markdown.Parser.isSharpRoot, markdown.Parser.spaces, markdown.Parser.sep, fsOps, fsFailed, defaultGrowerSimple.enabledValidation, lastForest, lnNodes, errSent, splSent, ctxDoneSeen, errRecv
+//@   modifies Node.children, Node.parent, Node.brnch.value, Node.brnch.path, list.List.view, list.Element.backOf, counter.n, bufio.Scanner.pos, bufio.Scanner.failed, markdown.Parser.isSharpRoot, markdown.Parser.spaces, markdown.Parser.sep, fsOps, fsFailed, defaultGrowerSimple.enabledValidation, lastForest, lnNodes, errSent, ctxCancelled, splSent, ctxDoneSeen, errRecv
 //@   ensures reported [C14]: result == nil ==> errRecv == old(errRecv)
 //@ func gtree.treePipeline.mkdirProgrammably
 //@   requires ok: pipelineTreeOK(t, cfg) && root != nil && root.hierarchy == 1
-//@   modifies Node.brnch.value, Node.brnch.path, fsOps, fsFailed, defaultGrowerSimple.enabledValidation, out, wfail, counter.n, spText, errSent, splSent, ctxDoneSeen, errRecv
+//@   modifies Node.brnch.value, Node.brnch.path, fsOps, fsFailed, defaultGrowerSimple.enabledValidation, out, wfail, counter.n, spText, errSent, ctxCancelled, splSent, ctxDoneSeen, errRecv
 //@   ensures reported [C14]: result == nil ==> errRecv == old(errRecv)
 //@   ensures dryrun [C09]: cfg.dryrun ==> fsOps == old(fsOps) && fsFailed == old(fsFailed)
 //@   carries rootStream: rootChan
@@ -1460,17 +1503,18 @@ func fsExistsAt(p string) bool { _, err := os.Stat(p); return !os.IsNotExist(err
 //@   requires nn: root != nil && root.hierarchy == 1
 
 //@ contract fromMarkdownMkdir
-//@   modifies Node.children, Node.parent, Node.brnch.value, Node.brnch.path, list.List.view, list.Element.backOf, counter.n, bufio.Scanner.pos, bufio.Scanner.failed, markdown.Parser.isSharpRoot, markdown.Parser.spaces, markdown.Parser.sep, fsOps, fsFailed, defaultGrowerSimple.enabledValidation, libFailed, libCalls, lastConfig, lastForest, lnNodes, errSent, splSent, ctxDoneSeen, errRecv
+//@   modifies Node.children, Node.parent, Node.brnch.value, Node.brnch.path, list.List.view, list.Element.backOf, counter.n, bufio.Scanner.pos, bufio.Scanner.failed, markdown.Parser.isSharpRoot, markdown.Parser.spaces, markdown.Parser.sep, fsOps, fsFailed, defaultGrowerSimple.enabledValidation, libFailed, libCalls, lastCtxLive, lastConfig, lastForest, lnNodes, errSent, ctxCancelled, splSent, ctxDoneSeen, errRecv
 //@   ghostset lastConfig := cfg
 //@   ghostset libFailed := old(libFailed) || result != nil
 //@   ghostset libCalls := old(libCalls) + 1
+//@   ghostset lastCtxLive := old(!specHasOpt(options, optKMassive, len(options)) || specLastCtx(options, len(options)) == specBg() || !ctxCancelled[specLastCtx(options, len(options))])
 //@   ensures mkdir [C06,C12]: fresh(lastConfig) && (!lastConfig.massive && lastConfig.encode == encodeDefault && result == nil ==> fsFailed == old(fsFailed) && (allRoots(lastForest) && !specAnyRootExists((len(lastConfig.targetDir) != 0 ? lastConfig.targetDir : "."), lastForest, 0) && fsOps == old(fsOps) ++ specMkOpsAll((len(lastConfig.targetDir) != 0 ? lastConfig.targetDir : "."), lastConfig.fileExtensions, lastForest, len(lastForest))))
 //@   ensures validated [C07,C12]: fresh(lastConfig) && (!lastConfig.massive && lastConfig.encode == encodeDefault && fsOps != old(fsOps) ==> ((forall k int :: {lastForest[k]} 0 <= k && k < len(lastForest) ==> validated(lastForest[k]))))
 //@   ensures wired [C16]: lastConfig.strictVerify == specHasOpt(options, optKStrict, len(options)) && lastConfig.dryrun == specHasOpt(options, optKDry, len(options)) && lastConfig.massive == specHasOpt(options, optKMassive, len(options)) && lastConfig.targetDir == specLastOptStr(options, optKTarget, len(options), ".") && lastConfig.fileExtensions == specLastOptStrs(options, optKExt, len(options), nil) && lastConfig.encode == specLastEncode(options, len(options))
 //@ applies fromMarkdownMkdir to gtree.MkdirFromMarkdown, gtree.Mkdir
 
 //@ contract fromRootMkdir
-//@   modifies Node.brnch.value, Node.brnch.path, fsOps, fsFailed, defaultGrowerSimple.enabledValidation, out, wfail, counter.n, lastConfig, spText, errSent, splSent, ctxDoneSeen, errRecv
+//@   modifies Node.brnch.value, Node.brnch.path, fsOps, fsFailed, defaultGrowerSimple.enabledValidation, out, wfail, counter.n, lastConfig, spText, errSent, ctxCancelled, splSent, ctxDoneSeen, errRecv
 //@   ghostset lastConfig := cfg
 //@   ensures nilnode [C03]: root == nil ==> result == ErrNilNode && fsOps == old(fsOps)
 //@   ensures notroot [C03]: root != nil && root.hierarchy != 1 ==> result == ErrNotRoot && fsOps == old(fsOps)
@@ -1632,12 +1676,12 @@ func specVerifyText(strict bool, extra, noExists []string) string {
 
 //@ func gtree.treePipeline.verify
 //@   requires ok: pipelineTreeOK(t, cfg)
-//@   modifies Node.children, Node.parent, Node.brnch.value, Node.brnch.path, list.List.view, list.Element.backOf, counter.n, bufio.Scanner.pos, bufio.Scanner.failed, markdown.Parser.isSharpRoot, markdown.Parser.spaces, markdown.Parser.sep, defaultGrowerSimple.enabledValidation, maps, lastForest, lnNodes, errSent, splSent, ctxDoneSeen, errRecv
+//@   modifies Node.children, Node.parent, Node.brnch.value, Node.brnch.path, list.List.view, list.Element.backOf, counter.n, bufio.Scanner.pos, bufio.Scanner.failed, markdown.Parser.isSharpRoot, markdown.Parser.spaces, markdown.Parser.sep, defaultGrowerSimple.enabledValidation, maps, lastForest, lnNodes, errSent, ctxCancelled, splSent, ctxDoneSeen, errRecv
 //@   ensures reported [C14]: result == nil ==> errRecv == old(errRecv)
 //@   ensures fsframe [C08]: fsOps == old(fsOps) && fsFailed == old(fsFailed)
 //@ func gtree.treePipeline.verifyProgrammably
 //@   requires ok: pipelineTreeOK(t, cfg) && root != nil && root.hierarchy == 1
-//@   modifies Node.brnch.value, Node.brnch.path, defaultGrowerSimple.enabledValidation, maps, errSent, splSent, ctxDoneSeen, errRecv
+//@   modifies Node.brnch.value, Node.brnch.path, defaultGrowerSimple.enabledValidation, maps, errSent, ctxCancelled, splSent, ctxDoneSeen, errRecv
 //@   ensures reported [C14]: result == nil ==> errRecv == old(errRecv)
 //@   ensures fsframe [C08]: fsOps == old(fsOps) && fsFailed == old(fsFailed)
 //@   carries rootStream: rootChan
@@ -1645,16 +1689,17 @@ func specVerifyText(strict bool, extra, noExists []string) string {
 //@   requires nn: root != nil && root.hierarchy == 1
 
 //@ contract fromMarkdownVerify
-//@   modifies Node.children, Node.parent, Node.brnch.value, Node.brnch.path, list.List.view, list.Element.backOf, counter.n, bufio.Scanner.pos, bufio.Scanner.failed, markdown.Parser.isSharpRoot, markdown.Parser.spaces, markdown.Parser.sep, defaultGrowerSimple.enabledValidation, maps, libFailed, libCalls, lastConfig, lastForest, lnNodes, errSent, splSent, ctxDoneSeen, errRecv
+//@   modifies Node.children, Node.parent, Node.brnch.value, Node.brnch.path, list.List.view, list.Element.backOf, counter.n, bufio.Scanner.pos, bufio.Scanner.failed, markdown.Parser.isSharpRoot, markdown.Parser.spaces, markdown.Parser.sep, defaultGrowerSimple.enabledValidation, maps, libFailed, libCalls, lastCtxLive, lastConfig, lastForest, lnNodes, errSent, ctxCancelled, splSent, ctxDoneSeen, errRecv
 //@   ghostset lastConfig := cfg
 //@   ghostset libFailed := old(libFailed) || result != nil
 //@   ghostset libCalls := old(libCalls) + 1
+//@   ghostset lastCtxLive := old(!specHasOpt(options, optKMassive, len(options)) || specLastCtx(options, len(options)) == specBg() || !ctxCancelled[specLastCtx(options, len(options))])
 //@   ensures fsframe [C08,C12]: fsOps == old(fsOps) && fsFailed == old(fsFailed)
 //@   ensures wired [C16]: lastConfig.strictVerify == specHasOpt(options, optKStrict, len(options)) && lastConfig.dryrun == specHasOpt(options, optKDry, len(options)) && lastConfig.massive == specHasOpt(options, optKMassive, len(options)) && lastConfig.targetDir == specLastOptStr(options, optKTarget, len(options), ".") && lastConfig.fileExtensions == specLastOptStrs(options, optKExt, len(options), nil) && lastConfig.encode == specLastEncode(options, len(options))
 //@ applies fromMarkdownVerify to gtree.VerifyFromMarkdown, gtree.Verify
 
 //@ contract fromRootVerify
-//@   modifies Node.brnch.value, Node.brnch.path, defaultGrowerSimple.enabledValidation, maps, counter.n, lastConfig, errSent, splSent, ctxDoneSeen, errRecv
+//@   modifies Node.brnch.value, Node.brnch.path, defaultGrowerSimple.enabledValidation, maps, counter.n, lastConfig, errSent, ctxCancelled, splSent, ctxDoneSeen, errRecv
 //@   ensures nilnode [C03]: root == nil ==> result == ErrNilNode
 //@   ensures notroot [C03]: root != nil && root.hierarchy != 1 ==> result == ErrNotRoot
 //@   ensures fsframe [C08,C12]: fsOps == old(fsOps) && fsFailed == old(fsFailed)
